@@ -46,6 +46,11 @@ def run_case(case: Dict[str, Any]) -> CaseResult:
         with ex0:
             b.dag.setup()
         pre = {s: R0.values[s] for s in M.sites if M.spec[s].get("setup")}
+    if case.get("draw_first"):
+        from ..hist import draw_quietly
+
+        draw_quietly(b.dag)  # the original has been drawn (a read-only operation) before compose() is called
+        res.cls("draw-before-compose")
     if case.get("exec_first"):
         # the original has been run through an executor with arguments of its own before compose() is called
         ex0 = sched.Exec("free")
@@ -255,6 +260,7 @@ def cases(draw: Any, tier: str) -> Dict[str, Any]:
     case["forms"] = forms
     # an executor run with its own arguments before composing: compose must still see the original's defaults only
     case["exec_first"] = draw(st.sampled_from([None, None, [prog.enc(draw(st.sampled_from([7, "z"]))), prog.enc(draw(st.sampled_from([8, "y"])))]]))
+    case["draw_first"] = draw(st.sampled_from([True, False, False, False]))
     case["as_async"] = draw(st.sampled_from([None, None, False, True]))
     if ins and draw(st.integers(0, 11)) == 0:
         # ambiguous alias: a group tag carried by two sites replaces one input alias
